@@ -24,3 +24,8 @@ func (g *Gen) noteElemRange(st *State, ref string, elem types.Type) {
 	g.refRange[ref] = [2]string{lo, hi}
 	g.assume(st, elemRangeFact(g.hsGet(st), ref, [2]string{lo, hi}))
 }
+
+func isStringType(t types.Type) bool {
+	b, ok := t.Underlying().(*types.Basic)
+	return ok && b.Info()&types.IsString != 0
+}
